@@ -8,6 +8,7 @@ A *case* is a JSON-able description.  Arrays are described by a `spec`:
 's' str (object).  Values are *injective* (every cell differs) so that a cell that moves is seen.
 `nan` lists flat (row-major) cell numbers that hold NaN (float only).
 """
+import contextlib
 import copy
 import hashlib
 import json
@@ -18,6 +19,18 @@ import traceback
 import numpy as np
 
 from . import env
+
+
+class _Null(object):
+    """the library prints diagnostics on some error paths; keep them out of the checks' stdout"""
+    def write(self, *a):
+        return 0
+
+    def flush(self):
+        pass
+
+
+_DEVNULL = _Null()
 
 
 class Violation(Exception):
@@ -56,7 +69,7 @@ def lib(fn, expect=(), what=None, sig=None):
     """call into the library.  An exception of a type in `expect` is returned as Raised; any other
     exception is a Violation('exception') -- the property promised a result for this input."""
     try:
-        with np.errstate(all="ignore"):
+        with np.errstate(all="ignore"), contextlib.redirect_stdout(_DEVNULL):
             return fn()
     except Violation:
         raise
@@ -75,7 +88,7 @@ def lib(fn, expect=(), what=None, sig=None):
 def must_raise(fn, types, what, sig=None):
     """the property prescribes an exception of one of `types`"""
     try:
-        with np.errstate(all="ignore"):
+        with np.errstate(all="ignore"), contextlib.redirect_stdout(_DEVNULL):
             r = fn()
     except types as e:
         return e
